@@ -115,6 +115,14 @@ fn materialise(nodes: &[Node], bases: &Bases) {
         let p = phys(nodes, bases, i);
         match n.kind.as_str() {
             "dir" => fs::create_dir(&p).expect("mkdir"),
+            "file" if !n.big && i % 2 == 1 => {
+                // every other small "file" is a FIFO without a writer: a traversal lists entries, it must not open them
+                // (opening such a FIFO for reading would block for ever)
+                use std::os::unix::ffi::OsStrExt;
+                let c = std::ffi::CString::new(p.as_os_str().as_bytes()).expect("path");
+                let rc = unsafe { libc::mkfifo(c.as_ptr(), 0o644) };
+                assert_eq!(rc, 0, "mkfifo");
+            }
             "file" => {
                 let data = vec![b'x'; if n.big { BIG } else { 0 }];
                 fs::write(&p, data).expect("write file");
